@@ -162,12 +162,6 @@ func modeTestsuite(args []string) {
 	defer o.Close()
 	repo := os.Getenv("MPCLDIR")
 	root := filepath.Join(repo, "testsuite")
-	// the compiler prints diagnostics to stdout
-	devnull, _ := os.OpenFile(os.DevNull, os.O_WRONLY, 0)
-	saved := os.Stdout
-	if devnull != nil {
-		os.Stdout = devnull
-	}
 	filepath.WalkDir(root, func(path string, d fs.DirEntry, err error) error {
 		if err != nil || d.IsDir() || !compiler.IsFilename(path) {
 			return nil
@@ -192,5 +186,4 @@ func modeTestsuite(args []string) {
 		}
 		return nil
 	})
-	os.Stdout = saved
 }
